@@ -1,11 +1,19 @@
 import OdxVerif.Proofs.AtomicRT
 import OdxVerif.Model.Decode
-/-! First composite proof tier ("flat"): explicitly or implicitly positioned `A_INT32` VALUE parameters.
-    The monadic `encodeParam` / `decodeParam` of the model reduce to the pure steps `encStep` / `decStep`. -/
+/-! First composite proof tier ("flat"): explicitly or implicitly positioned integer VALUE parameters
+    (`A_INT32` in its four encodings, `A_UINT32` unencoded). The monadic `encodeParam` / `decodeParam` of the
+    model reduce to the pure steps `encStep` / `decStep`. Everything downstream uses only the interface
+    `Obj.raw / ofRaw / inRange / canon` with `Obj.raw_spec` and `Obj.canon_spec`. -/
 namespace OdxVerif.Codec
 open OdxVerif.Bits OdxVerif.OdxM
 
-/-- an explicitly or implicitly positioned `A_INT32` VALUE parameter with a standard-length type and the
+/-- the kinds of leaf objects of the proved tiers -/
+inductive Kind where
+  | int32      -- A_INT32, encodings none / 1C / 2C / SM
+  | uint32     -- A_UINT32, no encoding
+deriving Repr, DecidableEq, Inhabited
+
+/-- an explicitly or implicitly positioned integer VALUE parameter with a standard-length type and the
     identical compu method: the objects of the first composite proof tier -/
 structure Obj where
   name : String
@@ -14,14 +22,97 @@ structure Obj where
   enc : Option Enc
   hl : Bool
   bl : Nat
+  kind : Kind := .int32
+
+def Obj.bt (o : Obj) : BaseType :=
+  match o.kind with
+  | .int32 => .int32
+  | .uint32 => .uint32
 
 def Obj.toParam (o : Obj) : Param :=
-  .mk o.name o.bytePos o.bitPos (.value (.simple (.std .int32 o.enc o.hl o.bl none false) .int32 .identical) none)
+  .mk o.name o.bytePos o.bitPos (.value (.simple (.std o.bt o.enc o.hl o.bl none false) o.bt .identical) none)
 
-def Obj.ok (o : Obj) : Prop := int32Known o.enc = true ∧ 1 ≤ o.bl ∧ o.bl ≤ 64
+def Obj.encOk (o : Obj) : Prop :=
+  match o.kind with
+  | .int32 => int32Known o.enc = true
+  | .uint32 => o.enc = none ∨ o.enc = some .none_
+
+def Obj.ok (o : Obj) : Prop := o.encOk ∧ 1 ≤ o.bl ∧ o.bl ≤ 64
 def Obj.bp (o : Obj) : Nat := o.bitPos.getD 0
 def Obj.k (o : Obj) : Nat := (o.bl + o.bp + 7) / 8
 def Obj.mask (o : Obj) : Nat := (2 ^ o.bl - 1) * 2 ^ o.bp
+
+/-- the `bl`-bit pattern of an internal value -/
+def Obj.raw (o : Obj) (v : IVal) : Nat :=
+  match o.kind, v with
+  | .int32, .int i => (int32Raw o.enc o.bl i).toNat
+  | .uint32, .int i => i.toNat
+  | _, _ => 0
+
+/-- the internal value of a `bl`-bit pattern -/
+def Obj.ofRaw (o : Obj) (r : Nat) : IVal :=
+  match o.kind with
+  | .int32 => .int (int32OfRaw o.enc o.bl r)
+  | .uint32 => .int r
+
+/-- the internal values the object can represent -/
+def Obj.inRange (o : Obj) (v : IVal) : Prop :=
+  match o.kind, v with
+  | .int32, .int i => int32InRange o.enc o.bl i
+  | .uint32, .int i => 0 ≤ i ∧ i < 2 ^ o.bl
+  | _, _ => False
+
+/-- Boolean version of `inRange` -/
+def Obj.accepts (o : Obj) (v : IVal) : Bool :=
+  match o.kind, v with
+  | .int32, .int i => int32RangeOk o.enc o.bl i
+  | .uint32, .int i => decide (0 ≤ i) && decide (i < 2 ^ o.bl)
+  | _, _ => false
+
+/-- the bit patterns that are the representation of some value (all but "negative zero") -/
+def Obj.canon (o : Obj) (r : Nat) : Prop :=
+  match o.kind with
+  | .int32 => canonRaw o.enc o.bl r
+  | .uint32 => r < 2 ^ o.bl
+
+theorem Obj.accepts_iff (o : Obj) (ho : o.ok) (v : IVal) : o.accepts v = true ↔ o.inRange v := by
+  unfold Obj.accepts Obj.inRange
+  cases o.kind <;> cases v <;> simp [rangeOk_iff o.enc o.bl ho.2.1]
+
+theorem Obj.raw_spec (o : Obj) (ho : o.ok) (v : IVal) (hr : o.inRange v) :
+    o.raw v < 2 ^ o.bl ∧ o.ofRaw (o.raw v) = v := by
+  obtain ⟨hk, hbl, _⟩ := ho
+  unfold Obj.inRange at hr
+  unfold Obj.raw Obj.ofRaw
+  unfold Obj.encOk at hk
+  cases hkind : o.kind <;> cases v <;> simp only [hkind] at hr hk ⊢
+  · rename_i i
+    obtain ⟨h0, h1, hinv⟩ := int32Raw_spec o.enc hk o.bl hbl i hr
+    have : ((2 ^ o.bl : Nat) : Int) = (2:Int) ^ o.bl := by simp
+    exact ⟨by omega, by rw [hinv]⟩
+  · rename_i i
+    have : ((2 ^ o.bl : Nat) : Int) = (2:Int) ^ o.bl := by simp
+    refine ⟨by omega, ?_⟩
+    congr 1
+    omega
+
+theorem Obj.canon_lt (o : Obj) (r : Nat) (hc : o.canon r) : r < 2 ^ o.bl := by
+  unfold Obj.canon at hc
+  cases hkind : o.kind <;> simp only [hkind] at hc
+  · exact hc.1
+  · exact hc
+
+theorem Obj.canon_spec (o : Obj) (ho : o.ok) (r : Nat) (hc : o.canon r) :
+    o.inRange (o.ofRaw r) ∧ o.raw (o.ofRaw r) = r := by
+  obtain ⟨hk, hbl, _⟩ := ho
+  unfold Obj.canon at hc
+  unfold Obj.inRange Obj.raw Obj.ofRaw
+  unfold Obj.encOk at hk
+  cases hkind : o.kind <;> simp only [hkind] at hc hk ⊢
+  · obtain ⟨h1, h2⟩ := int32_raw_roundtrip o.enc hk o.bl hbl r hc
+    exact ⟨h1, h2⟩
+  · have : ((2 ^ o.bl : Nat) : Int) = (2:Int) ^ o.bl := by simp
+    exact ⟨⟨by omega, by omega⟩, by simp⟩
 
 /-- where the object goes: origin + BYTE-POSITION, or the cursor -/
 def Obj.pos (o : Obj) (origin cursor : Nat) : Nat :=
@@ -30,9 +121,9 @@ def Obj.pos (o : Obj) (origin cursor : Nat) : Nat :=
   | none => cursor
 
 /-- the encoder's effect on the state for one object, as a pure function -/
-def encStep (o : Obj) (v : Int) (s : EncState) : EncState :=
+def encStep (o : Obj) (v : IVal) (s : EncState) : EncState :=
   let pos := o.pos s.origin s.cursorByte
-  let new := ord o.hl (toBytesBE o.k ((int32Raw o.enc o.bl v).toNat * 2 ^ o.bp))
+  let new := ord o.hl (toBytesBE o.k (o.raw v * 2 ^ o.bp))
   let m := ord o.hl (toBytesBE o.k o.mask)
   let used0 := s.used ++ List.replicate ((padTo s.msg (pos + o.k)).length - s.msg.length) 0
   { s with msg := placeBytes s.msg pos new m,
@@ -40,26 +131,48 @@ def encStep (o : Obj) (v : Int) (s : EncState) : EncState :=
            warn := s.warn + overlapCount ((used0.drop pos).take o.k) m,
            cursorByte := pos + o.k, cursorBit := 0 }
 
-theorem encodeParam_obj (o : Obj) (ho : o.ok) (v : Int) (hr : int32InRange o.enc o.bl v) (fuel : Nat) (s : EncState) :
-    encodeParam (fuel + 2) o.toParam (some (.atom (.int v))) s true = .ok ((), encStep o v s) := by
+/-- raw representation of an in-range `A_UINT32` value without encoding -/
+theorem rawOfUInt32_ok (enc : Option Enc) (he : enc = none ∨ enc = some .none_) (bl : Nat) (i : Int) (h0 : 0 ≤ i)
+    (h1 : i < 2 ^ bl) (s : EncState) : rawOfUInt32 enc bl i s true = .ok (i.toNat, s) := by
+  have hlt : i.toNat < 2 ^ bl := by
+    have : ((2 ^ bl : Nat) : Int) = (2:Int) ^ bl := by simp
+    omega
+  have hbit : ¬ (bl < bitLength i.toNat) := Nat.not_lt.mpr ((bitLength_le_iff _ _).mpr hlt)
+  have hneg : ¬ (i < 0) := by omega
+  have hnat : i.natAbs = i.toNat := by omega
+  rcases he with rfl | rfl <;>
+    simp [rawOfUInt32, bind, pure, run_bind, run_ite, run_pure, hneg, hbit, hnat]
+
+theorem encodeParam_obj (o : Obj) (ho : o.ok) (v : IVal) (hr : o.inRange v) (fuel : Nat) (s : EncState) :
+    encodeParam (fuel + 2) o.toParam (some (.atom v)) s true = .ok ((), encStep o v s) := by
+  obtain ⟨hlt, -⟩ := o.raw_spec ho v hr
   obtain ⟨hk, hbl, hbl64⟩ := ho
-  obtain ⟨h0, h1, _⟩ := int32Raw_spec o.enc hk o.bl hbl v hr
   have hb0 : o.bl ≠ 0 := by omega
   have h64 : ¬ (64 < o.bl) := by omega
-  have hge : ¬ (2 ^ o.bl ≤ (int32Raw o.enc o.bl v).toNat) := by
-    have : ((2 ^ o.bl : Nat) : Int) = (2:Int) ^ o.bl := by simp
-    omega
+  have hge : ¬ (2 ^ o.bl ≤ o.raw v) := by omega
   have hmask : ∀ bp, ¬ (256 ^ ((o.bl + bp + 7) / 8) ≤ (2 ^ o.bl - 1) * 2 ^ bp) :=
     fun bp => Nat.not_le.mpr (mask_fits o.bl bp)
-  simp [Obj.toParam, encodeParam, encodeDop, encodeDct, typeAdmits, emplaceAtomic, emplaceBytes, bind, pure, run_ite,
-    run_bind, run_pure, run_getS, run_setS, run_modifyS, run_raise, BaseType.isNumeric,
-    rawOfInt32_ok o.enc hk o.bl hbl v hr, hb0, hge, hmask, h64]
-  cases hh : o.hl <;> cases hb : o.bytePos <;> simp [encStep, Obj.pos, Obj.k, Obj.bp, Obj.mask, ord, toBytesBE_length, hh, hb]
+  unfold Obj.inRange at hr
+  unfold Obj.encOk at hk
+  unfold Obj.raw at hge
+  cases hkind : o.kind <;> cases v <;> simp only [hkind] at hr hk hge
+  · rename_i i
+    simp [Obj.toParam, Obj.bt, hkind, encodeParam, encodeDop, encodeDct, typeAdmits, emplaceAtomic, emplaceBytes, bind, pure,
+      run_ite, run_bind, run_pure, run_getS, run_setS, run_modifyS, run_raise, BaseType.isNumeric,
+      rawOfInt32_ok o.enc hk o.bl hbl i hr, hb0, hge, hmask, h64]
+    cases hh : o.hl <;> cases hb : o.bytePos <;>
+      simp [encStep, Obj.raw, hkind, Obj.pos, Obj.k, Obj.bp, Obj.mask, ord, toBytesBE_length, hh, hb]
+  · rename_i i
+    simp [Obj.toParam, Obj.bt, hkind, encodeParam, encodeDop, encodeDct, typeAdmits, emplaceAtomic, emplaceBytes, bind, pure,
+      run_ite, run_bind, run_pure, run_getS, run_setS, run_modifyS, run_raise, BaseType.isNumeric,
+      rawOfUInt32_ok o.enc hk o.bl i hr.1 hr.2, hb0, hge, hmask, h64]
+    cases hh : o.hl <;> cases hb : o.bytePos <;>
+      simp [encStep, Obj.raw, hkind, Obj.pos, Obj.k, Obj.bp, Obj.mask, ord, toBytesBE_length, hh, hb]
 
 /-- the decoder's effect for one object -/
 def decStep (o : Obj) (d : DecState) : IVal × DecState :=
   let pos := o.pos d.origin d.cursorByte
-  (.int (int32OfRaw o.enc o.bl (readNum d.msg pos o.k o.hl / 2 ^ o.bp % 2 ^ o.bl)),
+  (o.ofRaw (readNum d.msg pos o.k o.hl / 2 ^ o.bp % 2 ^ o.bl),
    { d with cursorByte := pos + o.k, cursorBit := 0 })
 
 theorem decodeParam_obj (o : Obj) (ho : o.ok) (fuel : Nat) (d : DecState)
@@ -68,16 +181,26 @@ theorem decodeParam_obj (o : Obj) (ho : o.ok) (fuel : Nat) (d : DecState)
   obtain ⟨hk, hbl, hbl64⟩ := ho
   have hb0 : o.bl ≠ 0 := by omega
   have h64 : ¬ (64 < o.bl) := by omega
-  unfold int32Known at hk
-  simp only [Bool.or_eq_true, decide_eq_true_eq] at hk
-  have hk' : o.enc = none ∨ o.enc = some Enc.onec ∨ o.enc = some Enc.twoc ∨ o.enc = some Enc.sm := by
-    rcases hk with ((h | h) | h) | h <;> simp [h]
+  unfold Obj.encOk at hk
   unfold Obj.pos Obj.k Obj.bp at hlen
-  cases hb : o.bytePos <;> simp only [hb] at hlen
-  all_goals
-    have hnl : ¬ (d.msg.length < _ + (o.bl + o.bitPos.getD 0 + 7) / 8) := Nat.not_lt.mpr hlen
-    simp [Obj.toParam, decodeParam, decodeDop, decodeDct, extractAtomic, extractCore, convertRaw, bind, pure,
-      run_bind, run_pure, run_getS, run_modifyS, run_ite, run_raise, BaseType.isNumeric, hb0, hnl, hk', hb, h64,
-      decStep, Obj.pos, Obj.k, Obj.bp]
+  cases hkind : o.kind <;> simp only [hkind] at hk
+  · unfold int32Known at hk
+    simp only [Bool.or_eq_true, decide_eq_true_eq] at hk
+    have hk' : o.enc = none ∨ o.enc = some Enc.onec ∨ o.enc = some Enc.twoc ∨ o.enc = some Enc.sm := by
+      rcases hk with ((h | h) | h) | h <;> simp [h]
+    cases hb : o.bytePos <;> simp only [hb] at hlen
+    all_goals
+      have hnl : ¬ (d.msg.length < _ + (o.bl + o.bitPos.getD 0 + 7) / 8) := Nat.not_lt.mpr hlen
+      simp [Obj.toParam, Obj.bt, Obj.ofRaw, hkind, decodeParam, decodeDop, decodeDct, extractAtomic, extractCore, convertRaw,
+        bind, pure, run_bind, run_pure, run_getS, run_modifyS, run_ite, run_raise, BaseType.isNumeric, hb0, hnl, hk', hb, h64,
+        decStep, Obj.pos, Obj.k, Obj.bp]
+  · cases hb : o.bytePos <;> simp only [hb] at hlen
+    all_goals
+      have hnl : ¬ (d.msg.length < _ + (o.bl + o.bitPos.getD 0 + 7) / 8) := Nat.not_lt.mpr hlen
+      rcases hk with he | he
+      all_goals
+        simp [Obj.toParam, Obj.bt, Obj.ofRaw, hkind, decodeParam, decodeDop, decodeDct, extractAtomic, extractCore, convertRaw,
+          uint32OfRaw, bind, pure, run_bind, run_pure, run_getS, run_modifyS, run_ite, run_raise, BaseType.isNumeric, hb0, hnl,
+          he, hb, h64, decStep, Obj.pos, Obj.k, Obj.bp]
 
 end OdxVerif.Codec
